@@ -28,7 +28,7 @@ def workdir(name):
 
 
 def _java(extra_props=(), heap=None):
-    cmd = ["java", "-XX:+UseParallelGC"]
+    cmd = ["java", "-XX:+UseParallelGC", "-Xss64m"]
     if heap:
         cmd.append("-Xmx%s" % heap)
     cmd.append("-DTLA-Library=%s" % SPEC_DIR)
